@@ -229,7 +229,7 @@ class Ex:
             v = z3.Int(name)
             self.assumptions.append(z3.And(v >= I128_MIN, v <= I128_MAX))
             return IntV(v, I80)
-        if ty in ('anchor_lang::prelude::Pubkey', 'Pubkey') or ty.endswith('::Pubkey'):
+        if (ty in ('anchor_lang::prelude::Pubkey', 'Pubkey') or ty.endswith('::Pubkey')) and not ty.startswith('&'):
             return IntV(z3.Int(name), 'Pubkey')
         if ty == '[u8]':
             return IntV(z3.Int(name + '.bytes'), 'bytes')
@@ -629,13 +629,47 @@ class Engine:
                 inv = full ^ y
                 if inv & (inv - 1) == 0 and inv > 0:   # clear a single bit: x & !bit
                     return IntV(ae - ((ae / inv) % 2) * inv, ty)
-                # general constant mask: sum of the selected bits (only for small popcounts)
-                bits_ = [1 << i for i in range(y.bit_length()) if (y >> i) & 1]
-                if len(bits_) <= 8:
+                # general constant mask: sum over the runs of one-bits  [lo, hi):  ((x >> lo) mod 2^(hi-lo)) << lo
+                runs = []; i_ = 0; nbits = full.bit_length()
+                while i_ < nbits:
+                    if (y >> i_) & 1:
+                        j_ = i_
+                        while j_ < nbits and (y >> j_) & 1: j_ += 1
+                        runs.append((i_, j_)); i_ = j_
+                    else: i_ += 1
+                if len(runs) <= 8:
                     e = z3.IntVal(0)
-                    for b_ in bits_: e = e + ((ae / b_) % 2) * b_
+                    for lo_, hi_ in runs:
+                        part = (ae / (1 << lo_)) if hi_ >= nbits else ((ae / (1 << lo_)) % (1 << (hi_ - lo_)))
+                        e = e + part * (1 << lo_)
                     return IntV(e, ty)
             if op == 'Rem' : return IntV(ae % be, ty)
+            if op in ('BitAnd', 'BitOr', 'BitXor') and ty in INT_RANGES and INT_RANGES[ty][0] == 0:
+                # symbolic (x) symbolic on unsigned words: a fresh result constrained by *true* lemmas about the operator
+                # (bounds + the disjoint-bits cases).  Sound over-approximation; a model that needs more is reported UNDECIDED.
+                lo, hi = INT_RANGES[ty]; nb = (hi + 1).bit_length() - 1
+                r_ = z3.Int(self.ex.fresh_name('bitop_' + op))
+                L = [r_ >= 0, r_ <= hi]
+                if op == 'BitOr':
+                    L += [r_ >= ae, r_ >= be, r_ <= ae + be]
+                    for k in range(1, min(nb, 17)):
+                        m_ = 1 << k
+                        L.append(z3.Implies(z3.And(ae % m_ == 0, be < m_), r_ == ae + be))
+                        L.append(z3.Implies(z3.And(be % m_ == 0, ae < m_), r_ == ae + be))
+                elif op == 'BitAnd':
+                    L += [r_ <= ae, r_ <= be]
+                    for k in range(1, min(nb, 17)):
+                        m_ = 1 << k
+                        L.append(z3.Implies(z3.And(ae % m_ == 0, be < m_), r_ == 0))
+                        L.append(z3.Implies(z3.And(be % m_ == 0, ae < m_), r_ == 0))
+                        L.append(z3.Implies(be == m_ - 1, r_ == ae % m_))
+                        L.append(z3.Implies(ae == m_ - 1, r_ == be % m_))
+                    L.append(z3.Implies(ae == be, r_ == ae))
+                else:
+                    L += [r_ <= ae + be]
+                    L.append(z3.Implies(ae == be, r_ == 0))
+                self.ex.assumptions.append(z3.And(L))
+                return IntV(r_, ty)
             return IntV(z3.Int(self.ex.fresh_name('bitop_' + op)), ty)
         raise Exception('binop ' + op)
 
@@ -686,7 +720,11 @@ class Engine:
                 return IntV(z3.Int(self.ex.fresh_name('len')), 'usize')
             if op == 'Not':
                 a = args[0]
-                return BoolV(z3.Not(a.e)) if isinstance(a, BoolV) else IntV(z3.Int(self.ex.fresh_name('not')), a.ty)
+                if isinstance(a, BoolV): return BoolV(z3.Not(a.e))
+                if a.ty in INT_RANGES:
+                    lo, hi = INT_RANGES[a.ty]
+                    return IntV((hi - a.e) if lo == 0 else (-a.e - 1), a.ty)      # bitwise complement: unsigned MAX - x, signed -x-1
+                return IntV(z3.Int(self.ex.fresh_name('bitop_Not')), a.ty)
             if op == 'Neg': return IntV(-args[0].e, args[0].ty)
             return self.binop(op, args[0], args[1])
         # enum variant aggregate e.g. std::result::Result::<..>::Ok(x)  /  Option::<T>::None  / errors::MarginfiError::NoAssetFound
@@ -1073,8 +1111,14 @@ class Engine:
             return StructV('Iter', self.ex.fresh_name('iter'), {'__list': lst, '__idx': 0}, lazy=False)
         if re.match(r'^<std::slice::Iter<.*> as IntoIterator>::into_iter$', c):
             return args[0]
-        if re.match(r'^<std::slice::Iter<.*> as Iterator>::next$', c):
+        if re.match(r'^<std::slice::(Iter|IterMut)<.*> as Iterator>::next$', c):
             it = self.deref_val(args[0]); lst = it.fields['__list']; lv = self.deref_val(lst)
+            n_ = self.iter_len(it)
+            if isinstance(n_, int):       # fixed-size array: concrete trip count
+                i = it.fields['__idx']
+                if i >= n_: return EnumV('Option', 0, {})
+                it.fields['__idx'] = i + 1
+                return EnumV('Option', 1, {1: {0: self.iter_elem_ref(it, i)}})
             i = it.fields['__idx']; it.fields['__idx'] = i + 1
             ln = lv.fields['__len'].e
             if i >= LIST_K:
@@ -1531,6 +1575,9 @@ class Engine:
 
     def goto(self, st, bb):
         fr = st.frames[-1]; fr['bb'] = bb; fr['idx'] = 0
+        vc = fr.setdefault('visits', {}); vc[bb] = vc.get(bb, 0) + 1
+        if vc[bb] > getattr(self, 'loop_bound', 80):
+            raise PathEnd('loop bound exceeded in ' + fr['fn'].name[-60:] + ' ' + bb)
 
     def assign(self, st, place_s, val):
         c, p = self.resolve(st, self.parse_place(place_s))
